@@ -79,6 +79,13 @@ var Catalogue = []Item{
 	{"switch.tagless-break-last-in-loop", "func sb%d(n uint64) uint64 {\n\tvar c uint64 = 0\n\tfor i := uint64(0); i < n; i++ {\n\t\tc = c + 1\n\t\tswitch {\n\t\tcase i == 1:\n\t\t\tbreak\n\t\tdefault:\n\t\t\tc = c + 10\n\t\t}\n\t}\n\treturn c\n}\n", "return sb%d(3)", "uint64"},
 	{"switch.tagless-break-under-if-last-in-loop", "func sc%d(n uint64) uint64 {\n\tvar c uint64 = 0\n\tfor i := uint64(0); i < n; i++ {\n\t\tc = c + 1\n\t\tswitch {\n\t\tcase i >= 1:\n\t\t\tif c > 2 {\n\t\t\t\tbreak\n\t\t\t}\n\t\t\tc = c + 100\n\t\tdefault:\n\t\t\tc = c + 10\n\t\t}\n\t}\n\treturn c\n}\n", "return sc%d(4)", "uint64"},
 	{"switch.tagless-multi-cond", "func sm%dt(x uint64) uint64 {\n\tvar r uint64 = 0\n\tswitch {\n\tcase x == 1, x == 3:\n\t\tr = 5\n\tcase x > 10:\n\t\tr = 6\n\tdefault:\n\t\tr = 7\n\t}\n\treturn r\n}\n", "return sm%dt(3)*100 + sm%dt(11)*10 + sm%dt(2)", "uint64"},
+	// in-subset fixed programs (accepted at the pin; C01 executes them like its generated programs)
+	{"subset.slice-field-upto-len-of-other", "type sf%d struct {\n\tdata []byte\n}\n\nfunc sf%df(a *sf%d, b *sf%d, n uint64) uint64 {\n\ts := a.data[n:len(b.data)]\n\treturn uint64(len(s))\n}\n\nfunc sf%dg() uint64 {\n\ta := &sf%d{data: make([]byte, 10)}\n\tb := &sf%d{data: make([]byte, 6)}\n\treturn sf%df(a, b, 2)*100 + sf%df(b, b, 1)\n}\n", "return sf%dg()", "uint64"},
+	{"subset.slice-upto-len-of-other-var", "func sv%d() uint64 {\n\txs := make([]uint64, 9)\n\tys := make([]uint64, 5)\n\ts := xs[1:len(ys)]\n\tt := ys[2:len(ys)]\n\treturn uint64(len(s))*10 + uint64(len(t))\n}\n", "return sv%d()", "uint64"},
+	{"subset.uint64tostring-two-live", "func ts%d(x uint64, y uint64) string {\n\ta := machine.UInt64ToString(x)\n\tb := machine.UInt64ToString(y)\n\treturn a + \"-\" + b\n}\n", "return ts%d(12, 345)", "string"},
+	{"subset.uint64tostring-kept-in-field", "type tk%d struct {\n\tname string\n}\n\nfunc tk%df() string {\n\tv := &tk%d{name: machine.UInt64ToString(7001)}\n\tw := machine.UInt64ToString(42)\n\treturn v.name + w\n}\n", "return tk%df()", "string"},
+	{"subset.named-map-make-read-miss", "type nm%dt map[uint64]bool\n\nfunc nm%df() uint64 {\n\tm := make(nm%dt)\n\tif m[3] {\n\t\treturn 1\n\t}\n\treturn uint64(len(m)) + 7\n}\n", "return nm%df()", "uint64"},
+	{"subset.alias-map-make-rmw", "type am%dt = map[uint64]bool\n\nfunc am%df() uint64 {\n\tm := make(am%dt)\n\tm[4] = true\n\tvar r uint64 = 0\n\tif m[4] {\n\t\tr = r + 10\n\t}\n\tif m[5] {\n\t\tr = r + 1\n\t}\n\treturn r\n}\n", "return am%df()", "uint64"},
 	{"method.value", "type mv%ds struct {\n\tk uint64\n}\n\nfunc (s *mv%ds) get(x uint64) uint64 {\n\treturn s.k + x\n}\n\nfunc mv%d() uint64 {\n\tp := &mv%ds{k: 5}\n\tf := p.get\n\tp.k = 100\n\treturn f(1)\n}\n", "return mv%d()", "uint64"},
 	{"struct.anonymous", "func an%d() uint64 {\n\tv := struct {\n\t\ta uint64\n\t}{a: 4}\n\treturn v.a\n}\n", "return an%d()", "uint64"},
 	{"literal.huge", "func lh%d() uint64 {\n\treturn 18446744073709551616 / 2\n}\n", "return lh%d()", "uint64"},
